@@ -141,6 +141,10 @@ def code_ok(t):
       conds.append(any([pres == 0, en != i, eg == 0, has_gap]))
     if e:
       conds.append(any([pres == 0, t[base + EW * (e - 1)] == 1]))
+      # compiler guarantee: exception-table entries are disjoint and sorted by start
+      # (assemble_exception_table emits one entry per maximal run of instructions
+      # with the same handler)
+      conds.append(any([pres == 0, st > t[base + EW * (e - 1) + 2]]))
   return all(conds)
 
 
